@@ -32,6 +32,7 @@ CONSTS = [
     ("DNS_MAX_LEN", "libxcm/tp/dns/xcm_dns.c", None),
     ("ATTR_PATH_NAME_MAX", "libxcm/core/attr_path.h", None),
     ("ATTR_PATH_COMP_MAX", "libxcm/core/attr_path.h", None),
+    ("XCM_ATTR_NAME_MAX", "common/xcm_attr_limits.h", None),
     ("CTL_ATTR_VALUE_MAX", "common/ctl_proto.h", None),
     ("CTL_PROTO_MAX_ATTRS", "common/ctl_proto.h", None),
     ("CTL_MAX_CLIENTS", "libxcm/ctl/ctl.c", "MAX_CLIENTS"),
@@ -49,6 +50,11 @@ CONSTS = [
     ("MAX_NUM_TRACKS", "libxcm/tp/tcp/tconnect.c", None),
     ("XCM_TP_NUM_BYTESTREAM_CNTS", "libxcm/tp/common/xcm_tp.h", None),
     ("XCM_TP_NUM_MESSAGING_CNTS", "libxcm/tp/common/xcm_tp.h", None),
+]
+
+# (lean name, header to #include, C expression)
+EXPRS = [
+    ("CTL_PROTO_MSG_SIZE", "ctl_proto.h", "sizeof(struct ctl_proto_msg)"),
 ]
 
 ERRNOS = ["EPERM", "ENOENT", "EINTR", "EIO", "EBADF", "EAGAIN", "ENOMEM", "EACCES", "EFAULT",
@@ -123,6 +129,9 @@ def gen_consts():
         body.append('  printf("%s %%lld\\n", (long long)(%s));' % (lean, cname))
     for e in ERRNOS:
         body.append('  printf("%s %%lld\\n", (long long)(%s));' % (e, e))
+    for lean, hdr, expr in EXPRS:
+        prog.append('#include "%s"' % hdr)
+        body.append('  printf("%s %%lld\\n", (long long)(%s));' % (lean, expr))
     prog.append("int main(void) {")
     prog += body
     prog.append("  return 0; }")
@@ -150,6 +159,8 @@ def gen_consts():
             # a constant that vanished from the source: keep the name defined so that the
             # *theorems* (not the import) are what fails
             lines.append("def %s : Nat := 0 -- MISSING in source" % lean)
+    for lean, _, _ in EXPRS:
+        lines.append("def %s : Nat := %d" % (lean, vals.get(lean, 0)))
     lines.append("")
     for e in ERRNOS:
         lines.append("def %s : Nat := %d" % (e, vals[e]))
